@@ -19,7 +19,13 @@ theorem freshReq_newReq (kind stars group sp remaining items nc)
 /-- registering a request whose own books are balanced -/
 theorem tame_register (p : Pool) (r : Req) (hr : FreshReq r) (hs : r.cancelSnap = none := by rfl) : Tame p (p.register r) := by
   refine ⟨⟨rfl, rfl, rfl, rfl, rfl, rfl, rfl, fun h => h, ?_, fun _ tk' h => ⟨tk', h, rfl⟩, rfl,
-    fun h => h.of_soft rfl rfl rfl (fun _ tk' h => ⟨tk', h, rfl⟩), fun h => h.of_eq rfl rfl, rfl⟩, by simp [register, emitRef], ?_, ?_⟩
+    fun h => h.of_soft rfl rfl rfl (fun _ tk' h => ⟨tk', h, rfl⟩), fun h => h.of_eq rfl rfl, rfl⟩, by simp [register, emitRef], ?_, ?_, ?_⟩
+  rotate_left 3
+  · refine ⟨Nat.le_refl _, fun _ tk a b => ⟨tk, a, b⟩, by simp [register, emitRef], ?_, fun h => h⟩
+    intro m x a
+    refine ⟨x, ?_, Nat.le_refl _, Nat.le_refl _, fun _ h => h, fun h => h⟩
+    show (p.reqs ++ [r])[m]? = some x
+    rw [List.getElem?_append_left (List.getElem?_eq_some_iff.mp a).1]; exact a
   rotate_left 2
   · intro E hk
     refine hk.frame (fun _ x => x) ?_
